@@ -162,7 +162,10 @@ class PeptideVariantGraph():
             shifted_site = s - shift
             if shifted_site >= len(node.seq.seq):
                 # A site at the very end of the node is already a node
-                # boundary; splitting there would create an empty node.
+                # boundary; splitting there would create an empty node. The
+                # node ends at a genuine cleavage site, so it is not a clipped
+                # trailing fragment.
+                node.truncated = False
                 break
             if r:
                 r = (r[0] - shift, r[1] - shift)
